@@ -28,10 +28,31 @@ def register(reg):
     reg.auto_inline |= {NW + "_Network__correctInputNode", "tracklib.core.obs:Obs.__init__", "tracklib.core.obs_time:ObsTime.__init__"}
     # In this contract the geometry operations are opaque: each returns SOME new track (trusted, no further claim), so
     # the proof is about the walk through the antecedents only; the geometry clauses of C07 are bounded only.
-    for m, params in (("copy", dict(self="Track")), ("reverse", dict(self="Track")), ("__gt__", dict(self="Track", arg="int")),
-                      ("__add__", dict(self="Track", track="Track"))):
-        reg.add(Spec(T + m, params, "Track", trusted=True, fresh=["Track", "Obs", "ENUCoords", "ObsTime"], ensures=["isnew(result)"]))
+    # Geometry: Track.copy is a TRUSTED deepcopy contract (a new track of new observations with the same coordinates);
+    # Track.reverse is verified on top of it; `track > 1` and `+` are C04's proved contracts (the result shares the
+    # observation objects of its operands, so it has their coordinates).
+    NN = "all(not isnan(X(%(t)s, r)) and not isnan(Y(%(t)s, r)) for r in range(0, npts(%(t)s)))"
+    reg.add(Spec(T + "copy", dict(self="Track"), "Track", trusted=True, fresh=["Track", "Obs", "ENUCoords", "ObsTime"],
+                 ensures=["isnew(result)", "npts(result) == npts(self)",
+                          "all(isnew(obs(result, i)) and isnew(obs(result, i).position) for i in range(0, npts(self)))",
+                          "all(same(X(result, i), X(self, i)) and same(Y(result, i), Y(self, i)) for i in range(0, npts(self)))"]))
+    reg.add(Spec(T + "reverse", dict(self="Track"), "Track", fresh=["Track", "Obs", "ENUCoords", "ObsTime"],
+                 ensures=[("new-track", "isnew(result)"), ("same-size", "npts(result) == npts(self)"),
+                          ("new-observations", "all(isnew(obs(result, i)) and isnew(obs(result, i).position) for i in range(0, npts(self)))"),
+                          ("reversed-coordinates", "all(same(X(result, k), X(self, npts(self) - 1 - k)) and same(Y(result, k), Y(self, npts(self) - 1 - k)) "
+                           "for k in range(0, npts(self)))")]))
     TGT = "self.NODES[target]"
+    EO = X.get("EDGE_OF", "self.EDGES[self.NEXT_EDGES[%s.id][%s]]")
+    LISTED_ENDS = ("all(implies(%s and 0 <= t and t < len(self.NEXT_EDGES[u.id]), %s.source is u or %s.target is u) for u in refs(Node) for t in ints)"
+                   % (isn("u"), EO % ("u", "t"), EO % ("u", "t")))
+    EDGE_GEOM = ("all(implies(e_.id in self.EDGES and self.EDGES[e_.id] is e_, npts(e_.geom) >= 2 and %s and "
+                 "X(e_.geom, 0) == e_.source.coord.E and Y(e_.geom, 0) == e_.source.coord.N and "
+                 "X(e_.geom, npts(e_.geom) - 1) == e_.target.coord.E and Y(e_.geom, npts(e_.geom) - 1) == e_.target.coord.N) for e_ in refs(Edge))"
+                 % (NN % dict(t="e_.geom")))
+    GEO = ["npts(track) >= 1 and npts(track) == 1 + CNT and CNT >= 0",
+           "X(track, 0) == TGT0.coord.E and Y(track, 0) == TGT0.coord.N",
+           "X(track, npts(track) - 1) == node.coord.E and Y(track, npts(track) - 1) == node.coord.N",
+           "all(isold(obs(track, r)) and isold(obs(track, r).position) for r in range(0, npts(track)))"]
     CHAIN = ["len(GN) == len(NODES_PATH) and len(GN) >= 1", "GN[0] is %s and GN[len(GN) - 1] is node" % "TGT0",
              "all(NODES_PATH[j] == GN[j].id and %s and GN[j].poids != -1 for j in range(0, len(GN)))" % isn("GN[j]"),
              "all(implies(j >= 1, GN[j - 1].antecedent is not None and GN[j] is GN[j - 1].antecedent) for j in range(0, len(GN)))"]
@@ -40,15 +61,24 @@ def register(reg):
                  requires=X["WFNET"] + X["LABELS"] + [X["TREE"], X["SETTLED_REACHED"],
                                                       "target in self.NODES and %s is TGT0 and %s" % (TGT, isn("TGT0")),
                                                       "TGT0.antecedent is None or TGT0.poids != -1", "SRC.antecedent is None",
-                                                      "all(implies(%s, not isnan(n.coord.E) and not isnan(n.coord.N)) for n in refs(Node))" % isn("n")],
+                                                      "all(implies(%s, not isnan(n.coord.E) and not isnan(n.coord.N)) for n in refs(Node))" % isn("n"),
+                                                      # geometry of the network: an edge listed under a node has that node as one of its ends, and
+                                                      # its polyline (>= 2 numeric fixes) runs from its source node's position to its target node's
+                                                      LISTED_ENDS, EDGE_GEOM],
                  fresh=["Track", "Obs", "ENUCoords", "ObsTime"],
                  locals=dict(NODES_PATH="list[any]", GN="list[Node]"),
-                 at={"NODES_PATH.append(node.id)": ["ghost GN = [node]", "ghost W = 0.0"],
-                     "e = self.EDGES[node.antecedent_edge]": ["ghost W = W + e.weight"],
+                 at={"NODES_PATH.append(node.id)": ["ghost GN = [node]", "ghost W = 0.0", "ghost CNT = 0"],
+                     "e = self.EDGES[node.antecedent_edge]": ["ghost W = W + e.weight", "ghost CNT = CNT + npts(e.geom) - 1",
+                                                              ("the-edge-joins-the-node-and-its-antecedent",
+                                                               "(e.source is node and e.target is node.antecedent) or (e.target is node and e.source is node.antecedent)")],
+                     "if e.source != node:": [("oriented-from-the-node-to-its-antecedent",
+                                               "npts(edge_geom) == npts(e.geom) and X(edge_geom, 0) == node.coord.E and Y(edge_geom, 0) == node.coord.N and "
+                                               "X(edge_geom, npts(edge_geom) - 1) == nonnull(node.antecedent).coord.E and "
+                                               "Y(edge_geom, npts(edge_geom) - 1) == nonnull(node.antecedent).coord.N")],
                      "NODES_PATH.append(node.id)#2": ["ghost GN = GN + [nonnull(node)]"]},
                  loops={"1": LoopSpec(inv=CHAIN + [
                      "not isnan(W) and W == TGT0.poids - node.poids",
-                     "isnew(track)",
+                     "isnew(track)"] + GEO + [
                      "unchanged_old_class('Track') and unchanged_old_class('Obs') and unchanged_old_class('ENUCoords') and unchanged_old_class('ObsTime')",
                      "node is not None"])},
                  ensures=[("none-iff-no-antecedent", "(result is None) == (TGT0.antecedent is None)"),
@@ -56,10 +86,14 @@ def register(reg):
                           ("path-is-the-antecedent-chain-reversed",
                            "implies(result is not None, len(track.path) == len(GN) and all(track.path[j] == GN[len(GN) - 1 - j].id for j in range(0, len(GN))))"),
                           ("chain-follows-the-antecedents", "implies(result is not None, %s)" % " and ".join(CHAIN[2:])),
-                          ("weights-sum-to-the-label-of-the-target", "implies(result is not None, W == TGT0.poids)")]))
+                          ("weights-sum-to-the-label-of-the-target", "implies(result is not None, W == TGT0.poids)"),
+                          ("geometry-starts-at-the-source-node", "implies(result is not None, X(nonnull(result), 0) == SRC.coord.E and Y(nonnull(result), 0) == SRC.coord.N)"),
+                          ("geometry-ends-at-the-target-node", "implies(result is not None, X(nonnull(result), npts(nonnull(result)) - 1) == TGT0.coord.E and "
+                           "Y(nonnull(result), npts(nonnull(result)) - 1) == TGT0.coord.N)")],
+                 ensures_local=[("one-vertex-per-edge-vertex-junctions-counted-once", "implies(result is not None, npts(nonnull(result)) == 1 + CNT)")]))
 
 
-FUNCTIONS = [NW + "run_routing_backward"]
+FUNCTIONS = [NW + "run_routing_backward", T + "reverse"]
 ASSUMPTIONS = ["in this contract Track.copy / reverse / > / + are opaque (each returns some new track): every GEOMETRY clause of C07 "
                "(polylines chained end to end, oriented along the travel, junctions not repeated, end points) is bounded only",
                "run_routing_backward: partial correctness (termination of the antecedent walk not proved)",
